@@ -638,6 +638,56 @@ func checkSetter(p *Prog, r *Report, rule string, fn *ssa.Function, g *ssa.Globa
 					break
 				}
 			}
+			if !matched && val != nil && va != nil {
+				// g = h(g, b): the helper computes the new value from the current one and the argument list
+				if c, isCall := val.(*ssa.Call); isCall {
+					if h := staticCallee(&c.Call); h != nil && p.InModule(h) && !p.Exported(h) && len(h.Blocks) > 0 {
+						var cur, vp *ssa.Parameter
+						for i, a := range c.Call.Args {
+							if i >= len(h.Params) {
+								continue
+							}
+							if globalOf(a) == g {
+								cur = h.Params[i]
+							}
+							if a == ssa.Value(va) {
+								vp = h.Params[i]
+							}
+						}
+						if hpaths, hok := enumPaths(h, 4096); cur != nil && vp != nil && hok {
+							hcz := p.canonFor(h)
+							isCur := func(v ssa.Value) bool { return v == ssa.Value(cur) }
+							hf, hall := 0, true
+							for _, hp := range hpaths {
+								if !lenClassFeasible(hcz, hp, vp, n) {
+									continue
+								}
+								last := hp.Blocks[len(hp.Blocks)-1]
+								ret, isRet := last.Instrs[len(last.Instrs)-1].(*ssa.Return)
+								if !isRet || len(ret.Results) != 1 {
+									continue
+								}
+								hf++
+								rv := phiValueOnPath(ret.Results[0], hp.Blocks)
+								m := false
+								for _, pat := range pats {
+									if pat == "same" && isCur(rv) {
+										m = true
+									} else if pat != "same" && matchPatternV(hcz, pat, rv, hp, isCur, vp) {
+										m = true
+									}
+								}
+								if !m {
+									hall = false
+								}
+							}
+							if hf > 0 && hall {
+								matched = true
+							}
+						}
+					}
+				}
+			}
 			if !matched {
 				okAll = false
 				got := "no store"
